@@ -1,5 +1,7 @@
 import PcfgVerif.Properties.PQCore
 import PcfgVerif.Lemmas.SoftFloatLemmas
+import PcfgVerif.Properties.ProbsCore
+import PcfgVerif.Generated.WriterLoops
 /-!
 # C01 — guesses are emitted in non-increasing probability order
 
@@ -95,5 +97,21 @@ example : (SF.ofBits 0x3FB999999999999A).map (fun a => SF.toBits (SF.mul a a)) =
 /-- non-vacuity: the concrete tied grid of `PQCore` is well-formed and its full run is ordered -/
 example : NonIncreasing natAlg.toPOps Pcfg.Example.g0 Pcfg.Example.final0.popped :=
   C01_order natAlg Pcfg.Example.g0 Pcfg.Example.wf0 _ Pcfg.Example.reach0
+
+/-- **the Markov column of a trained ruleset is well-formed too.**  `Omen/pcfg_omen_prob.txt` becomes the column of the `M` variable;
+the trainer writes it by iterating `pcfg_omen_prob.most_common()` over a `Counter` it builds itself (both regenerated from the
+current `save_omen_rules_to_disk`), and `most_common` — a stable sort by decreasing value, here on binary64 values in units of
+2^-1074 — yields a non-increasing list whatever the level densities are (they do not fall with the level number in general).
+The other list files are covered by `C06_sorted_binary64` / `C07_trained_column_wf`. -/
+theorem C01_omen_prob_file_sorted :
+    ("pcfg_omen_prob.txt", "pcfg_omen_prob.most_common()") ∈ Generated.WriterLoops.omenLoops ∧
+    (Generated.WriterLoops.omenLoops.filter (·.1 == "pcfg_omen_prob.txt")).length = 1 ∧
+    ("pcfg_omen_prob", "Counter()") ∈ Generated.WriterLoops.mostCommonContainers ∧
+    ∀ (levels : List (Nat × Nat)),
+      (mostCommon (⟨0, (· + ·), SF.ratio, fun a b => decide (a ≥ b)⟩ : QOps Nat) levels).Pairwise fun a b => b.2 ≤ a.2 := by
+  refine ⟨by decide, by decide, by decide, fun levels => ?_⟩
+  have hs := mostCommon_sorted (⟨0, (· + ·), SF.ratio, fun a b => decide (a ≥ b)⟩ : QOps Nat)
+    (by intro a b; simp; omega) (by intro a b c h1 h2; simp at *; omega) levels
+  exact hs.imp (fun {a b} h => by simpa using h)
 
 end Pcfg.C01
